@@ -516,6 +516,11 @@ func (r *transport) backgroundRevalidate(
 		}
 		select {
 		case <-req.Context().Done():
+			// The answer came after the timeout and is dropped; nobody else will close its body, and
+			// an open body keeps its connection (and the connection's goroutines) alive.
+			if resp.Body != nil { // a hand-written upstream may leave it nil
+				_ = resp.Body.Close()
+			}
 			errc <- req.Context().Err()
 			return
 		default:
@@ -523,6 +528,9 @@ func (r *transport) backgroundRevalidate(
 		// Private copy: the entry served to the caller must not be touched any more.
 		stored, err := r.cache.Get(storedID, req)
 		if err != nil {
+			if resp.Body != nil {
+				_ = resp.Body.Close()
+			}
 			errc <- err
 			return
 		}
